@@ -156,6 +156,18 @@ def gen_world(rng, index):
     iso = {"kind": "point", "material": material, "adsorbate": ads, "temperature": temp_val,
            "units": labels, "meta": meta, "pressure": p, "loading": l, "branch": branch, "other": other,
            "route": "frame" if (other or rng.random() < 0.3) else "arrays"}
+    if iso["route"] == "frame" and rng.random() < 0.2:
+        kind = rng.choice(["shifted", "gaps", "shuffled", "labels"])
+        if kind == "shifted":
+            iso["index"] = [i + 5 for i in range(npts)]
+        elif kind == "gaps":
+            iso["index"] = [2 * i + 1 for i in range(npts)]
+        elif kind == "shuffled":
+            idx = list(range(npts))
+            rng.shuffle(idx)
+            iso["index"] = idx
+        else:
+            iso["index"] = ["r%d" % (npts - i) for i in range(npts)]
     if iso["route"] == "frame" and rng.random() < 0.3:
         iso["keys"] = rng.choice([["p", "q"], ["P/bar", "uptake"], ["loading", "pressure"]])   # custom (even swapped) column names
         if isinstance(branch, list) and rng.random() < 0.5:
@@ -242,8 +254,10 @@ BAD_BASES = {"pressure": ["abs", "Relative", "percent"], "loading": ["molarr", "
 
 def _pair(rng, quantity, cur_basis, cur_unit, units_of, bases):
     """Draw (basis/mode, unit) arguments by class; returns (basis, unit, cls)."""
-    cls = rng.choices(["valid", "current", "unit_only", "basis_only", "neither", "wrong_unit", "bad_basis"],
-                      [52, 6, 12, 10, 5, 9, 6])[0]
+    cls = rng.choices(["valid", "current", "unit_only", "basis_only", "neither", "wrong_unit", "bad_basis", "empty"],
+                      [50, 6, 12, 10, 5, 9, 5, 3])[0]
+    if cls == "empty":      # an empty string where a unit (and maybe a basis) would go: another way of omitting it
+        return rng.choice([None, cur_basis, ""]), "", cls
     if cls == "valid":
         b = rng.choice(bases)
         us = units_of(b)
@@ -362,7 +376,7 @@ def _cols_close(xs, ys):
 def op_class(op, before):
     """Value-free class of an operation relative to the labels before it."""
     def arg(v, cur):
-        if v is None:
+        if not v:           # None or an empty string
             return "omitted"
         return "same" if v == cur else "other"
     o = op["op"]
@@ -465,13 +479,13 @@ class Oracle:
     def _target_group(self, group, basis, unit, before, after):
         """Does `after` reflect the given arguments for this group?  None = ok, else label name."""
         bkey, ukey = GROUPS[group]
-        if basis is not None and after[bkey] != basis:
+        if basis and after[bkey] != basis:
             return bkey
-        if basis is None and after[bkey] != before[bkey]:
+        if not basis and after[bkey] != before[bkey]:      # None or '' = omitted
             return bkey
         fb = after[bkey]
         has_units = (fb == "absolute") if group == "pressure" else (after["loading_basis"] not in ("percent", "fraction"))
-        if unit is not None and has_units and after[ukey] != unit:
+        if unit and has_units and after[ukey] != unit:
             return ukey
         return None
 
